@@ -5,7 +5,8 @@
 // Case: kind = kf | ukf_gen | ukf_add | sukf | gl | boot_gl | boot_custom |
 //              gpf_<inner>_<lik> (inner kf|ukfgen|ukfadd, lik gl|custom) | sis
 //   meta  n m comps steps sub risky
-//   word  pat  <6 bits per step: measure predictedMeasure innovation noisecov freeze likelihood>
+//   word  pat  <6 bits per step: measure predictedMeasure innovation noisecov freeze likelihood;
+//               gpf_*: optionally 12 bits, the second six apply while the likelihood model is evaluated>
 //   mat   H R ; per step k: y<k> means<k> covs<k> weights<k> [states<k>]
 //   mat   omeans ocovs oweights [ostates]   previous content of the output object
 // Output per step k: ident<k> (whole object bit-identical to the predicted one)
@@ -40,10 +41,12 @@ using namespace Eigen;
 enum { S_M = 0, S_P, S_I, S_N, S_F, S_L };
 
 struct Shared {
-    std::string bits = "000000";
+    std::string bits = "000000";    // pattern of the step
+    std::string bits2 = "000000";   // pattern while a PhaseLik-wrapped likelihood model is being evaluated (GPF's second phase)
+    int phase = 0;
     MatrixXd y;
     std::vector<std::string> log;
-    bool fails(int s) const { return s < (int)bits.size() && bits[s] == '1'; }
+    bool fails(int s) const { const std::string& b = phase ? bits2 : bits; return s < (int)b.size() && b[s] == '1'; }
 };
 
 // fault-injecting linear sensor; usable as Linear-, Additive- and plain MeasurementModel
@@ -97,6 +100,21 @@ public:
     }
 private:
     std::shared_ptr<Shared> sh_;
+};
+
+// marks the calls made on behalf of the likelihood evaluation
+class PhaseLik : public LikelihoodModel {
+public:
+    PhaseLik(std::shared_ptr<Shared> sh, std::unique_ptr<LikelihoodModel> inner) : sh_(sh), inner_(std::move(inner)) {}
+    std::pair<bool, VectorXd> likelihood(const MeasurementModel& mm, const Ref<const MatrixXd>& states) override {
+        sh_->phase = 1;
+        auto r = inner_->likelihood(mm, states);
+        sh_->phase = 0;
+        return r;
+    }
+private:
+    std::shared_ptr<Shared> sh_;
+    std::unique_ptr<LikelihoodModel> inner_;
 };
 
 class StubState : public StateModel {
@@ -161,7 +179,10 @@ static void emit_lik(const std::string& k, bool ok, const VectorXd& lik, const s
 }
 
 static void set_step(const vf::Case& c, Shared& sh, long k) {
-    sh.bits = c.word("pat")[k];
+    const std::string& tok = c.word("pat")[k];
+    sh.bits = tok.substr(0, 6);
+    sh.bits2 = tok.size() >= 12 ? tok.substr(6, 6) : sh.bits;
+    sh.phase = 0;
     sh.y = c.mat("y" + std::to_string(k));
     sh.log.clear();
 }
@@ -305,7 +326,8 @@ static void run_case(const vf::Case& c) {
             gc.reset(new UKFCorrection(std::unique_ptr<MeasurementModel>(new FaultyModel(sh, H, R, true)), alpha, beta, kappa));
         else
             gc.reset(new UKFCorrection(std::unique_ptr<AdditiveMeasurementModel>(new FaultyModel(sh, H, R, false)), alpha, beta, kappa));
-        GPFCorrection corr(std::move(lm), std::move(gc), std::unique_ptr<StateModel>(new StubState(n)), 7);
+        std::unique_ptr<LikelihoodModel> plm(new PhaseLik(sh, std::move(lm)));
+        GPFCorrection corr(std::move(plm), std::move(gc), std::unique_ptr<StateModel>(new StubState(n)), 7);
         run_pf(c, corr, *sh, "GPFCorrection::correct", "GPFCorrection::getLikelihood");
     } else if (kind == "sis") {
         set_step(c, *sh, 0);
